@@ -1,16 +1,250 @@
 ------------------------------- MODULE RxSched ------------------------------
 (***************************************************************************)
 (* Scheduler sub-machine (src/scheduler.rs) and the operators / sources    *)
-(* that hand work to a scheduler.  Filled in by the timed suites.          *)
+(* that hand work to a scheduler.                                          *)
+(*                                                                         *)
+(* A task is what `Scheduler::schedule(task, delay)` spawns: a `Remote`    *)
+(* future around `async { if let Some(d) = delay { new_timer(d).await }    *)
+(* task.await }` plus its HandleInfo cell (node kind "hinfo": f =          *)
+(* keep_running, g = value present, n = the subscription a subscribing     *)
+(* task produced).  Every poll first takes the handle lock and checks      *)
+(* keep_running; the lock is held while the body runs.                     *)
+(*                                                                         *)
+(*   tasks[k] = [kind, ph, hn, delay, dl, p, fur, seq, obs, c, x, t, v]    *)
+(*     ph    "new" (spawned, never polled) | "wait" (pending on the timer  *)
+(*           dl created at its first poll) | "body" (its own future) |     *)
+(*           "done"                                                        *)
+(*     delay outer delay (-1 = None); timers are created when first polled *)
+(*     fur   RepeatTask: deadline of the period timer (armed when the task *)
+(*           was BUILT, re-armed at now + p after each tick)               *)
+(* The clock only moves with the "adv" stimulus; "run" polls one task,     *)
+(* "runall" sweeps all tasks in creation order until nothing is runnable   *)
+(* (the prompt executor used by the harness scheduler).                    *)
 (***************************************************************************)
 EXTENDS RxSubs
 
-SchedObserverKinds == {}
-SchedOps == {}
-SchedFrames == {}
-SchedStims == {}
-SchedCall(st, fr) == Fault(st, "spec:sched-not-modelled")
-SchedSub(st, fr) == Fault(st, "spec:sched-not-modelled")
-SchedStep(st, fr) == Fault(st, "spec:sched-not-modelled")
-SchedInject(st, s) == Fault(st, "spec:sched-not-modelled")
+Task(kind, hn, delay, obs) ==
+  [kind |-> kind, ph |-> "new", hn |-> hn, delay |-> delay, dl |-> 0, p |-> 0, fur |-> 0, seq |-> 0,
+   obs |-> obs, c |-> 0, x |-> 0, t |-> "", v |-> U]
+
+NextTask(st) == Len(st.tasks) + 1
+RepeatKinds == {"repint", "repbuf"}
+
+(* spawn a task: allocates its HandleInfo cell (always an Arc<Mutex>); returns the state; *)
+(* the task id is Len(tasks), the handle node is Len(nodes)                                  *)
+Spawn(st, tk) ==
+  LET hn == NextNode(st)
+      st1 == AddNode(st, [Node("hinfo", 0) EXCEPT !.m = "arc", !.f = TRUE, !.g = FALSE]) IN
+  [st1 EXCEPT !.tasks = Append(@, [tk EXCEPT !.hn = hn]), !.timerlog = IF tk.kind \in RepeatKinds THEN Append(@, tk.p) ELSE @]
+
+Runnable(st, k) ==
+  LET tk == st.tasks[k] IN
+  CASE tk.ph = "new" -> TRUE
+    [] tk.ph = "wait" -> st.now >= tk.dl
+    [] tk.ph = "body" ->
+         CASE tk.kind \in RepeatKinds -> st.now >= tk.fur
+           [] tk.kind = "future" -> st.futs[tk.x] # <<>>
+           [] tk.kind = "stream" -> st.streams[tk.x] # <<>>
+           [] OTHER -> TRUE
+    [] OTHER -> FALSE
+
+LiveTasks(st) == Len(SelectSeq(st.tasks, LAMBDA tk : tk.ph # "done"))
+
+(* frames of the body of task k, run with the handle lock held *)
+BodyFrames(st, k) ==
+  LET tk == st.tasks[k] IN
+  CASE tk.kind = "emit" -> <<Call(tk.obs, tk.t, tk.v), F1("taskdone", k)>>
+    [] tk.kind = "timer" -> <<CallN(tk.obs, tk.v), CallC(tk.obs), F1("taskdone", k)>>
+    [] tk.kind = "trail" ->       \* debounce_task / throttle_task: take the trailing value and emit it, value cell locked
+         <<Acq(tk.c), F1("trail2", k), Rel(tk.c), F1("taskdone", k)>>
+    [] tk.kind = "subscribe" -> <<Sub(tk.x, tk.obs), F1("subdone", k)>>
+    [] OTHER -> <<F1("taskdone", k)>>
+
+(* one poll of task k: Remote::poll *)
+PollFrames(st, k) == <<Acq(st.tasks[k].hn), F1("poll2", k), Rel(st.tasks[k].hn)>>
+
+SchedOps == {"delay", "observe_on", "delay_subscription", "subscribe_on", "debounce", "throttle",
+             "buffer_time", "buffer_count_time", "interval", "timer", "from_future", "from_stream"}
+SchedObserverKinds == {"delayobs", "debobs", "throbs"}
+SchedFrames == {"poll2", "taskdone", "subdone", "trail2", "tick", "tick2", "retain", "sched", "apphandle", "debcancel",
+                "debstore", "thrnext2", "streamstep", "runall", "runone"}
+SchedStims == {"adv", "run", "runall", "fresolve", "spush"}
+
+(* schedule a one-shot task and leave the subscription of its handle on the value stack *)
+SpawnOnce(st, kind, delay, obs, c, x, t, v) ==
+  LET st1 == Spawn(st, [Task(kind, 0, delay, obs) EXCEPT !.c = c, !.x = x, !.t = t, !.v = v]) IN
+  RetSub(st1, SubRec(IF kind = "subscribe" THEN "tasksub" ELSE "task", Len(st1.nodes), 0))
+
+SchedStep(st, fr) ==
+  CASE fr.f = "poll2" ->         \* holding the handle of task n
+         LET k == fr.n tk == st.tasks[k] hn == st.nodes[tk.hn] IN
+         IF tk.ph = "done" THEN st
+         ELSE IF ~hn.f THEN [st EXCEPT !.tasks[k].ph = "done"]          \* cancelled: bail out
+         ELSE IF tk.ph = "new" /\ tk.delay >= 0
+         THEN (* first poll: the delay timer is created now *)
+              LET st1 == [st EXCEPT !.tasks[k].ph = "wait", !.tasks[k].dl = st.now + tk.delay,
+                                    !.timerlog = Append(@, tk.delay)] IN
+              IF tk.delay = 0 THEN Push(st1, <<F1("poll2", k)>>) ELSE st1
+         ELSE IF tk.ph = "wait" /\ st.now < tk.dl THEN st
+         ELSE IF tk.kind \in RepeatKinds THEN Push([st EXCEPT !.tasks[k].ph = "body"], <<F1("tick", k)>>)
+         ELSE IF tk.kind = "future" THEN
+           LET st1 == [st EXCEPT !.tasks[k].ph = "body"] IN
+           IF st.futs[tk.x] = <<>> THEN st1
+           ELSE LET r == st.futs[tk.x][1] IN
+                Push(st1, (IF r[1] = "E" THEN <<CallE(tk.obs, r[2])>> ELSE <<CallN(tk.obs, r[2]), CallC(tk.obs)>>)
+                          \o <<F1("taskdone", k)>>)
+         ELSE IF tk.kind = "stream" THEN Push([st EXCEPT !.tasks[k].ph = "body"], <<F1("streamstep", k)>>)
+         ELSE Push([st EXCEPT !.tasks[k].ph = "body"], BodyFrames(st, k))
+    [] fr.f = "taskdone" ->      \* info.value = Some(..)
+         [st EXCEPT !.tasks[fr.n].ph = "done", !.nodes[st.tasks[fr.n].hn].g = TRUE]
+    [] fr.f = "subdone" ->       \* the subscribing task stores the subscription it produced
+         [PopV(st) EXCEPT !.tasks[fr.n].ph = "done", !.nodes[st.tasks[fr.n].hn].g = TRUE,
+                          !.nodes[st.tasks[fr.n].hn].n = TopV(st)]
+    [] fr.f = "trail2" ->        \* holding the trailing-value cell
+         LET tk == st.tasks[fr.n] vc == st.nodes[tk.c] IN
+         IF IsSome(vc.v) THEN Push([st EXCEPT !.nodes[tk.c].v = NoneV], <<CallN(tk.obs, Unwrap(vc.v))>>) ELSE st
+    [] fr.f = "tick" ->          \* RepeatTask::poll loop: wait for the period timer, call the task function
+         LET k == fr.n tk == st.tasks[k] IN
+         IF st.now < tk.fur THEN st
+         ELSE IF tk.kind = "repint" THEN      \* interval_task
+           LET fin == Fin(st, tk.obs) IN
+           IF fin = 2 THEN Fault(st, "reentry")
+           ELSE IF fin = 1 THEN Push(st, <<F1("taskdone", k)>>)
+           ELSE Push(st, <<CallN(tk.obs, I(tk.seq)), F1("tick2", k)>>)
+         ELSE                                 \* emit_buffer / emit_count_buffer
+           LET fin == Fin(st, tk.obs) IN
+           IF fin = 2 THEN Fault(st, "reentry")
+           ELSE IF fin = 1 THEN Push(st, <<F1("taskdone", k)>>)
+           ELSE Push(st, <<Acq(tk.obs), Body(tk.obs, "flush", U), Rel(tk.obs), F1("tick2", k)>>)
+    [] fr.f = "tick2" ->         \* seq += 1; a fresh period timer relative to NOW; loop
+         LET k == fr.n IN
+         Push([st EXCEPT !.tasks[k].seq = @ + 1, !.tasks[k].fur = st.now + st.tasks[k].p,
+                         !.timerlog = Append(@, st.tasks[k].p)], <<F1("tick", k)>>)
+    [] fr.f = "streamstep" ->    \* StreamObserverFuture::poll: drain what the stream has, end on None / Err
+         LET k == fr.n tk == st.tasks[k] q == st.streams[tk.x] IN
+         IF q = <<>> THEN st
+         ELSE LET m == Head(q)
+                  st1 == [st EXCEPT !.streams[tk.x] = Tail(@)] IN
+              IF m[1] = "N" THEN Push(st1, <<CallN(tk.obs, m[2]), F1("streamstep", k)>>)
+              ELSE Push(st1, <<Call(tk.obs, m[1], m[2]), F1("taskdone", k)>>)
+    [] fr.f = "retain" -> Push(st, <<Acq(fr.n), Rel(fr.n)>>)      \* MultiSubscription::retain(): nothing to drop
+    [] fr.f = "sched" ->         \* delay / observe_on: one task per notification; x = delay (-1: none), n = observer node
+         LET nd == st.nodes[fr.n] IN
+         Push(SpawnOnce(st, "emit", fr.x, nd.d, 0, 0, fr.t, fr.v), <<F1("mappendv", nd.c)>>)
+    [] fr.f = "debcancel" ->     \* holding the handle cell of debounce: cancel the pending task
+         LET hc == st.nodes[fr.n] IN
+         IF hc.f THEN Push([st EXCEPT !.nodes[fr.n].f = FALSE], <<Unsub(hc.n)>>) ELSE st
+    [] fr.f = "debstore" ->      \* holding the handle cell: *task_handler = Some(top of value stack)
+         [PopV(st) EXCEPT !.nodes[fr.n].f = TRUE, !.nodes[fr.n].n = TopV(st)]
+    [] fr.f = "thrnext2" ->      \* ThrottleObserver::next after the trailing value was stored
+         LET n == fr.n nd == st.nodes[n]
+             c == Closed(st, nd.n) IN
+         IF c = 2 THEN Fault(st, "reentry")
+         ELSE IF c = 0 THEN st                       \* a window is open
+         ELSE LET d == IF nd.a > 0 THEN nd.a ELSE (W(fr.v) % 2) + 1       \* duration_selector
+                  st1 == SpawnOnce(st, "trail", d, nd.d, nd.c, 0, "", U)
+                  st2 == [PopV(st1) EXCEPT !.nodes[n].n = TopV(st1)] IN
+              IF nd.b \in {1, 3} THEN Push(st2, <<CallN(nd.d, fr.v)>>) ELSE st2
+    [] fr.f = "runone" ->        \* poll task n if it exists and is not finished
+         IF fr.n <= Len(st.tasks) /\ st.tasks[fr.n].ph # "done" THEN Push(st, PollFrames(st, fr.n)) ELSE st
+    [] fr.f = "runall" ->        \* the prompt executor: sweep all unfinished tasks in creation order (tasks spawned
+                                 \* meanwhile included) until a whole sweep finds nothing to do; x = 1 iff this sweep did something
+         LET k == fr.n IN
+         IF k > Len(st.tasks) THEN (IF fr.x = 1 THEN Push(st, <<F2("runall", 1, 0)>>) ELSE st)
+         ELSE IF st.tasks[k].ph = "done" THEN Push(st, <<F2("runall", k + 1, fr.x)>>)
+         ELSE LET act == Runnable(st, k) \/ ~st.nodes[st.tasks[k].hn].f IN
+              Push(st, PollFrames(st, k) \o <<F2("runall", k + 1, IF act THEN 1 ELSE fr.x)>>)
+    [] OTHER -> Fault(st, "spec:unknown-sched-frame")
+
+(* observers of the scheduler-using operators *)
+SchedCall(st, fr) ==
+  LET n == fr.n nd == st.nodes[n] k == nd.k t == fr.t v == fr.v IN
+  CASE k = "delayobs" ->         \* d = shared slot, c = MultiSubscription cell, a = delay (-1: observe_on), b = 1 if errors are scheduled too
+         IF t = "E" /\ nd.b = 0 THEN Push(st, <<CallE(nd.d, v)>>)
+         ELSE Push(st, <<F1("retain", nd.c), Fr("sched", n, t, v, nd.a)>>)
+    [] k = "debobs" ->           \* d = slot, c = trailing-value cell, b = handle cell, a = delay
+         IF t = "N" THEN
+           Push(st, <<Acq(nd.c), Fr("vset", nd.c, "", SomeV(v), 0), Rel(nd.c),
+                      Acq(nd.b), F1("debcancel", nd.b), Rel(nd.b),
+                      Fr("debsched", n, "", U, 0),
+                      Acq(nd.b), F1("debstore", nd.b), Rel(nd.b)>>)
+         ELSE IF t = "E" THEN Push(st, <<CallE(nd.d, v)>>)
+         ELSE Push(st, <<Acq(nd.c), F1("valflush", n), Rel(nd.c), CallC(nd.d)>>)
+    [] k = "throbs" ->           \* d = slot, c = trailing-value cell, a = window (0: by selector), b = edge, n = current handle
+         IF t = "N" THEN
+           Push(st, (IF nd.b \in {2, 3} THEN <<Acq(nd.c), Fr("vset", nd.c, "", SomeV(v), 0), Rel(nd.c)>> ELSE <<>>)
+                    \o <<Fr("thrnext2", n, "", v, 0)>>)
+         ELSE IF t = "E" THEN Push(st, <<CallE(nd.d, v), F1("unsubcur", n)>>)
+         ELSE Push(st, <<Acq(nd.c), F1("valflush", n), Rel(nd.c), F1("unsubcur", n), CallC(nd.d)>>)
+    [] OTHER -> Fault(st, "spec:unknown-sched-observer")
+
+(* two more frames used above *)
+SchedStep2(st, fr) ==
+  CASE fr.f = "debsched" ->      \* schedule debounce_task(observer, trailing value) after the delay
+         LET nd == st.nodes[fr.n] IN SpawnOnce(st, "trail", nd.a, nd.d, nd.c, 0, "", U)
+    [] fr.f = "valflush" ->      \* holding the trailing-value cell: emit what is pending
+         LET nd == st.nodes[fr.n] vc == st.nodes[nd.c] IN
+         IF IsSome(vc.v) THEN Push([st EXCEPT !.nodes[nd.c].v = NoneV], <<CallN(nd.d, Unwrap(vc.v))>>) ELSE st
+    [] fr.f = "unsubcur" -> Push(st, <<Unsub(st.nodes[fr.n].n)>>)
+    [] OTHER -> Fault(st, "spec:unknown-sched-frame2")
+SchedFrames2 == {"debsched", "valflush", "unsubcur"}
+
+(* actual_subscribe of the scheduler-using operators and sources *)
+SchedSub(st, fr) ==
+  LET x == fr.x n == fr.n o == Op(x) id == NextNode(st) md == Mode(st) IN
+  CASE o = "delay" \/ o = "observe_on" ->   \* slot id, MultiSubscription cell id+1, observer id+2
+         LET st1 == AddNode(AddNode(AddNode(st, [Node("slot", n) EXCEPT !.m = md]),
+                                    [Node("multicell", 0) EXCEPT !.m = md]),
+                            [Node("delayobs", id) EXCEPT !.c = id + 1,
+                                                         !.a = IF o = "delay" THEN PA(x) ELSE -1,
+                                                         !.b = IF o = "delay" THEN 0 ELSE 1])
+             st2 == AddSub(st1, SubRec("multi", id + 1, 0)) IN
+         Push(st2, <<Sub(S1(x), id + 2), F1("retsub", Len(st2.subs)), F0("mkzip")>>)
+    [] o = "delay_subscription" -> SpawnOnce(st, "subscribe", PA(x), n, 0, S1(x), "", U)
+    [] o = "subscribe_on" -> SpawnOnce(st, "subscribe", -1, n, 0, S1(x), "", U)
+    [] o = "debounce" ->         \* slot id, value cell id+1, handle cell id+2, observer id+3 (all MutArc)
+         LET st1 == AddNode(AddNode(AddNode(AddNode(st,
+                      [Node("slot", n) EXCEPT !.m = "arc"]),
+                      [Node("valcell", 0) EXCEPT !.m = "arc", !.v = NoneV]),
+                      [Node("hcell", 0) EXCEPT !.m = "arc", !.f = FALSE]),
+                      [Node("debobs", id) EXCEPT !.c = id + 1, !.b = id + 2, !.a = PA(x)])
+             st2 == AddSub(st1, SubRec("optcell", id + 2, 0)) IN
+         Push(st2, <<Sub(S1(x), id + 3), F1("retsub", Len(st2.subs)), F0("mkzip")>>)
+    [] o = "throttle" ->         \* slot id, value cell id+1, a finished handle id+2 (window closed), observer id+3
+         LET st1 == AddNode(AddNode(AddNode(AddNode(st,
+                      [Node("slot", n) EXCEPT !.m = "arc"]),
+                      [Node("valcell", 0) EXCEPT !.m = "arc", !.v = NoneV]),
+                      [Node("hinfo", 0) EXCEPT !.m = "arc", !.f = TRUE, !.g = TRUE]),
+                      Node("throbs", id))
+             st2 == AddSub(st1, SubRec("task", id + 2, 0))
+             st3 == [st2 EXCEPT !.nodes[id + 3].c = id + 1, !.nodes[id + 3].a = PA(x), !.nodes[id + 3].b = PB(x),
+                                !.nodes[id + 3].n = Len(st2.subs)] IN
+         Push(st3, <<Sub(S1(x), id + 3)>>)
+    [] o = "buffer_time" \/ o = "buffer_count_time" ->   \* the repeating flush task is scheduled BEFORE the source is subscribed
+         LET st1 == AddNode(st, [Node("bufcell", n) EXCEPT !.m = "arc", !.a = IF o = "buffer_time" THEN 0 ELSE PA(x)])
+             per == IF o = "buffer_time" THEN PA(x) ELSE PB(x)
+             st2 == Spawn(st1, [Task("repbuf", 0, -1, id) EXCEPT !.p = per, !.fur = st.now + per])
+             st3 == RetSub(st2, SubRec("task", Len(st2.nodes), 0)) IN
+         Push(st3, <<Sub(S1(x), id), F0("mkzip")>>)
+    [] o = "interval" ->         \* a = period, b = initial delay (-1: none); the period timer is armed when the task is built
+         LET st1 == Spawn(st, [Task("repint", 0, PB(x), n) EXCEPT !.p = PA(x), !.fur = st.now + PA(x)]) IN
+         RetSub(st1, SubRec("task", Len(st1.nodes), 0))
+    [] o = "timer" -> SpawnOnce(st, "timer", PA(x), n, 0, 0, "", PV(x))
+    [] o = "from_future" ->
+         LET st1 == Spawn(st, [Task("future", 0, -1, n) EXCEPT !.x = PA(x)]) IN
+         RetSub(st1, SubRec("task", Len(st1.nodes), 0))
+    [] o = "from_stream" ->
+         LET st1 == Spawn(st, [Task("stream", 0, -1, n) EXCEPT !.x = PA(x)]) IN
+         RetSub(st1, SubRec("task", Len(st1.nodes), 0))
+    [] OTHER -> Fault(st, "spec:unknown-sched-op")
+
+SchedInject(st0, s) ==
+  CASE s.k = "adv" -> [st0 EXCEPT !.now = @ + s.a]
+    [] s.k = "run" -> Push(st0, <<F1("runone", s.a)>>)
+    [] s.k = "runall" -> Push(st0, <<F2("runall", 1, 0)>>)
+    [] s.k = "fresolve" ->        \* the scripted future a becomes ready with (t, v)
+         [st0 EXCEPT !.futs[s.a] = <<<<s.t, s.v>>>>]
+    [] s.k = "spush" ->           \* the scripted stream a yields an item / an error / its end
+         [st0 EXCEPT !.streams[s.a] = Append(@, <<s.t, s.v>>)]
+    [] OTHER -> Fault(st0, "spec:unknown-sched-stimulus")
 =============================================================================
